@@ -10,6 +10,7 @@ import (
 	"fmt"
 	"sort"
 	"strings"
+	"time"
 
 	"github.com/sirupsen/logrus"
 
@@ -120,6 +121,16 @@ func Run(r *ev.Run) {
 		m.v2Scenario(h)
 		m.migration(h)
 	}
+	// command-level layer: acra-keys export / import through (reused) files
+	cmdStart := time.Now()
+	for _, h := range hs {
+		if !r.Thorough() && !cmdQuickHistories[h.name] {
+			continue
+		}
+		m.cmdScenario(h, r.Thorough() || h.name == "single-keys" || h.name == "rotated-clients" || h.name == "odd-ids")
+	}
+	m.cmdGuards()
+	r.Extra("command_level_layer_wall_s", time.Since(cmdStart).Seconds()) // information only
 	r.RequireAtLeast("exports_ok", 20)
 	r.RequireAtLeast("imports_ok", 20)
 	r.RequireAtLeast("exported_entries_compared", 200)
@@ -138,6 +149,10 @@ func Run(r *ev.Run) {
 	r.RequireSetAtLeast("formats", 3)
 	r.RequireSetAtLeast("selections", 4)
 }
+
+// cmdQuickHistories: the histories the quick tier runs through the command-level layer (thorough: all).
+var cmdQuickHistories = map[string]bool{"single-keys": true, "single-keys+poison-sym": true, "rotated-clients": true, "rotated+destroyed": true,
+	"odd-ids": true, "seeded-0": true, "seeded-1": true, "seeded-2": true}
 
 func (m *monitor) scannerSelfTest() {
 	sec := []secret{{"planted", ksrig.RandBytes(32)}}
